@@ -46,11 +46,11 @@ def gen_script(rng):
     return tol, max_it, rs
 
 
-def run_script(tol, max_it, rs):
+def run_script(tol, max_it, rs, y_start=0.0):
     """Build the table problem and run the real nr_method. y_k = y_0 - sum r_j (exact: dyadic data)."""
     from Solverz import nr_method, Opt
     from Solverz.num_api.num_eqn import nAE
-    ys = [0.0]
+    ys = [float(y_start)]
     for r in rs[:-1]:
         ys.append(ys[-1] - r)
     table = {}
@@ -69,7 +69,7 @@ def run_script(tol, max_it, rs):
     def J(y, p):
         return np.eye(2)
 
-    sol = quiet(nr_method, nAE(F, J, {}), np.array([0.0, 0.0]), Opt(ite_tol=tol, max_it=max_it))
+    sol = quiet(nr_method, nAE(F, J, {}), np.array([float(y_start), 0.0]), Opt(ite_tol=tol, max_it=max_it))
     yv = float(sol.y[0])
     if yv != yv:
         kfin = None
@@ -151,8 +151,9 @@ def run(rep, tier, seed):
     lines, expect, scripts = [], [], []
     for _ in range(nscript):
         tol, max_it, rs = gen_script(rng)
+        y_start = float(rng.choice([0.0, 65536.0, -4096.0]))     # large iterates: an absolute tolerance must stay absolute
         try:
-            sol, kfin = run_script(tol, max_it, rs)
+            sol, kfin = run_script(tol, max_it, rs, y_start)
         except Exception as ex:  # noqa
             fails.append((dict(tol=tol, max_it=max_it, script=[str(r) for r in rs]), f"nr_method raised {type(ex).__name__}: {ex}"))
             continue
@@ -162,12 +163,12 @@ def run(rep, tier, seed):
         res_final = abs(rs[min(k_eff, len(rs) - 1)])
         truth = bool(res_final < tol)
         if bool(st.succeed) != truth:
-            fails.append((dict(tol=tol, max_it=max_it, script=[repr(r) for r in rs]),
+            fails.append((dict(tol=tol, max_it=max_it, y_start=y_start, script=[repr(r) for r in rs]),
                           f"nr_method returned succeed={st.succeed} but max|F(y)| = {res_final!r} and tol = {tol!r}"))
         lines.append(f"c06 nr {f2h(tol)} {max_it} {len(rs)} " + " ".join(f2h(r) for r in rs))
         kshow = kfin if kfin is not None else "nan"
         expect.append(f"ok {kshow} {st.nstep} {st.nfeval} {st.ndecomp} {'true' if st.succeed else 'false'}")
-        scripts.append(dict(tol=tol, max_it=max_it, script=[repr(r) for r in rs]))
+        scripts.append(dict(tol=tol, max_it=max_it, y_start=y_start, script=[repr(r) for r in rs]))
     try:
         got = run_driver(lines)
         for s, e, g in zip(scripts, expect, got):
@@ -286,7 +287,7 @@ def replay(rep, payload):
     print("replay:", payload.get("message"))
     if isinstance(case, dict) and "script" in case:
         rs = [float(x) for x in case["script"]]
-        sol, k = run_script(case["tol"], case["max_it"], rs)
+        sol, k = run_script(case["tol"], case["max_it"], rs, case.get("y_start", 0.0))
         print("succeed", sol.stats.succeed, "final index", k, "nstep", sol.stats.nstep)
         keff = k if k is not None else len(rs) - 1
         if bool(sol.stats.succeed) != bool(abs(rs[keff]) < case["tol"]):
